@@ -181,6 +181,18 @@ def r2(ctx):
         expr_fn.loc(),
     )
     lhs_name = next((u(n.targets[0]) for n in pre if u(n.value) == "self.primary()"), "expr")
+    # every operator of the table can be parsed where a full expression is expected: the precedence with which a whole
+    # expression starts (the default of the climbing parameter, used by evaluate(), parentheses, call arguments) is not
+    # above the lowest precedence in the table
+    a_ = expr_fn.node.args
+    dflt = dict(zip([x.arg for x in a_.args][len(a_.args) - len(a_.defaults):], a_.defaults))
+    climb = expr_fn.params[1] if len(expr_fn.params) > 1 else None
+    d0 = dflt.get(climb)
+    lowest = min(p_ for p_, _ in binops.values())
+    low_ops = sorted(o for o, (p_, _) in binops.items() if p_ == lowest)
+    if climb is None or not (isinstance(d0, ast.Constant) and isinstance(d0.value, int)):
+        raise AnalysisError("expression(): the climbing parameter has no integer default")
+    ctx.check(d0.value <= lowest, "preprocessor:ExpressionEvaluator.expression:whole-expression-admits-every-operator", f"a whole expression is parsed with {climb}={d0.value}, but {low_ops} have precedence {lowest}: the climbing loop stops in front of them, and evaluate() ignores what is left (`c ? a : b` evaluates to `c`)", expr_fn.loc())
     for op, (prec, assoc) in binops.items():
         # (a) loop entry condition
         for m in (prec - 1, prec, prec + 1):
@@ -619,10 +631,21 @@ def r7(ctx):
     ctx.soft(ok, "preprocessor:MacroExpander.expand:defined-both-forms", "both `defined X` and `defined(X)` must be replaced by the platform's answer without expanding X", exp.loc(dblock))
     # defined() -> is_defined(str(identifier)) numerical constant
     d = repo.func("preprocessor", "MacroExpander.defined")
-    ok = any(isinstance(n, ast.Call) and u(n.func) == "self.platform.is_defined" and u(n.args[0]) in ("str(identifier)", "identifier.token") for n in walk_no_nested(d.node))
-    rets = [n.value for n in walk_no_nested(d.node) if isinstance(n, ast.Return)]
-    ok = ok and len(rets) == 1 and isinstance(rets[0], ast.Call) and u(rets[0].func) == "NumericalConstant" and u(rets[0].args[-1]) == "value"
-    ctx.soft(ok, "preprocessor:MacroExpander.defined:asks-platform", "defined(X) must become a NumericalConstant holding platform.is_defined(X)", d.loc())
+    # table specification: defined(X) is a numerical constant placed at X and holding what the platform answers for X's name
+    n_def = 0
+    for p in _tab(d, unroll=1):
+        if p.result[0] != "return":
+            continue
+        n_def += 1
+        res = _vt(p.result[1])
+        idp = d.params[1]
+        m = re.fullmatch(r"NumericalConstant\((.+)\)", res)
+        args_ = [a.strip() for a in re.split(r",\s*(?![^()]*\))", m.group(1))] if m else []
+        asks = [f"self.platform.is_defined(str({idp}))", f"self.platform.is_defined({idp}.token)"]
+        ok = bool(m) and bool(args_) and args_[-1] in asks
+        ctx.check(ok, "preprocessor:MacroExpander.defined:asks-platform", f"defined(X) must become a NumericalConstant holding platform.is_defined(<X's name>): returns `{res[:120]}`", d.loc())
+    if not n_def:
+        raise AnalysisError("MacroExpander.defined: no returning path")
     # the `defined` test precedes macro lookup of the same token
     idx_def = dblock.lineno
     lookups = [n.lineno for n in walk_no_nested(exp.node) if isinstance(n, ast.Call) and u(n.func) == "self.platform.get_macro"]
